@@ -131,6 +131,13 @@ def handleJweEnc (toks : List String) (tbl : Table) : Option String :=
     let plaintext ← hexToBytes pt
     some (showRes ((encryptCompact P env keyEnv keyTables encConsts reg p plaintext key sk).map fun (t, e) =>
       bytesToHex t ++ " " ++ bytesToHex e.cek ++ " " ++ showDraws e.draws))
+  | ["jwt.enc-jwe", allowed, keyarg, hdr, claims] => do
+    let al ← readOptStrList allowed
+    let key ← readKeyArg keyarg
+    let h ← match ← readJVal hdr with | .obj d => some d | _ => none
+    let c ← match ← readJVal claims with | .obj d => some d | _ => none
+    some (showRes ((jwtEncodeJwe P env keyEnv keyTables encConsts (mkJweRegistry al true [] true true) h c key).map fun (t, e) =>
+      bytesToHex t ++ " " ++ showDraws e.draws))
   | ["jwe.ej", strict, allowed, extra, keyarg, sender, kind, prot, unprot, aad, recips, pt] => do
     let reg ← readJweReg strict allowed extra "1"
     let key ← if keyarg == "~" then some none else (readKeyArg keyarg).map some
